@@ -28,6 +28,11 @@ class PyMerge(Unsupported):
     a statement-level conditional expression is re-executed as an `if` statement (the paths stay apart)."""
 
 
+class SplitGuard(Exception):
+    """a call with effects sits under a short-circuit guard at the top of a statement's expression (`if a and f(x):`,
+    `c and f(x)`): the statement is re-executed with the guard as an explicit `if` (the path is split)"""
+
+
 class ContractMisfit(Exception):
     """The contract no longer fits the code (loop/variable gone, sort error)."""
 
@@ -211,6 +216,8 @@ def _py_fits(o, t):
         return isinstance(o, bool)
     if isinstance(t, T.Tuple):
         return isinstance(o, tuple) and len(o) == len(t.items)
+    if isinstance(t, T.TupleOf):
+        return isinstance(o, tuple)
     if isinstance(t, T.List):
         return isinstance(o, list)
     return False
@@ -259,6 +266,8 @@ def coerce(v: Val, want: T.Ty) -> Val:
                 return Val(want, getattr(want.sort(), f"alt{i}")(c.term))
             except (ContractMisfit, Unsupported):
                 pass
+    if isinstance(want, T.List) and isinstance(v.ty, T.List) and v.ty.elem == want.elem and not v.is_py:
+        return Val(want, v.term)  # List(T) <-> TupleOf(T): the same sequence seen at the declared type (tuple(xs) / list(t))
     if isinstance(want, T.List) and isinstance(v.ty, T.List) and v.ty.elem == T.INT and want.elem == T.REAL:
         raise Unsupported("List[Int] -> List[Real] coercion of a symbolic list")
     if isinstance(want, T.Tuple) and isinstance(v.ty, T.Tuple) and len(want.items) == len(v.ty.items):
